@@ -215,6 +215,20 @@ func discharge(o *Obligation, prelude, dir string, idx int, opts *Options) {
 			ch <- res{sp.name, s, out, d}
 		}(sp)
 	}
+	if o.Kind == "lemma" {
+		// code-independent lemmas: also without relevancy filtering (E-matching then sees the terms of every disjunct)
+		n++
+		go func() {
+			sp := solverSpec{"z3-new/relevancy-0", func(f string, t, seed int) []string {
+				return []string{"z3-new", fmt.Sprintf("-T:%d", t), fmt.Sprintf("smt.random_seed=%d", seed), "smt.relevancy=0", f}
+			}}
+			s, out, d := runSolver(ctx, sp, file, opts.Timeout, opts.Seed)
+			if s == "sat" {
+				s = "unknown"
+			}
+			ch <- res{sp.name, s, out, d}
+		}()
+	}
 	for _, extra := range []int{1, 2} {
 		n++
 		go func(seed int) {
